@@ -53,11 +53,13 @@ type splitter struct {
 func (s *splitter) Checkpoint() []byte { s.n++; return nil }
 
 type world struct {
-	inner locations.StorageLocation
-	g     *gate
-	store *snapshots.Store
-	notes chan []uint64
-	spl   *splitter
+	inner   locations.StorageLocation
+	g       *gate
+	store   *snapshots.Store
+	notes   chan []uint64
+	errs    chan error
+	spl     *splitter
+	failObs *failObs // set by afterAck when the completing ack's snapshot write failed
 }
 
 func (w *world) boot(gated bool) error { return w.bootFrom(gated, "") }
@@ -66,6 +68,7 @@ func (w *world) boot(gated bool) error { return w.bootFrom(gated, "") }
 func (w *world) bootFrom(gated bool, spURI string) error {
 	w.g = &gate{inner: w.inner, gated: gated}
 	w.notes = make(chan []uint64)
+	w.errs = make(chan error, 64)
 	w.spl = &splitter{}
 	w.store = snapshots.NewStore(&snapshots.NewStoreParams{
 		SavepointURI:               spURI,
@@ -73,6 +76,7 @@ func (w *world) bootFrom(gated bool, spURI string) error {
 		SavepointsPath:             "savepoints",
 		CheckpointsPath:            "checkpoints",
 		RetainedCheckpointsUpdated: w.notes,
+		ErrChan:                    w.errs,
 	})
 	w.store.RegisterSourceSplitter(w.spl)
 	return w.store.LoadCheckpoint()
@@ -172,7 +176,7 @@ func snapTerm(s *snapObs) string {
 // ---------- mode c12 ----------
 
 type op12 struct {
-	K   string   `json:"k"` // ck | sp | ao | as | rs | lr | rf | ab
+	K   string   `json:"k"`           // ck | sp | ao | as | rs | lr | rf | ab | fw
 	I   int      `json:"i,omitempty"` // rf: index (mod their number) of the savepoint artifact to start from
 	B   bool     `json:"b,omitempty"` // lr: Remove calls get lost from now on (until the next restart)
 	Ops []uint64 `json:"ops,omitempty"`
@@ -189,6 +193,14 @@ func names(f func(uint64) string, xs []uint64) []string {
 		out[i] = f(x)
 	}
 	return out
+}
+
+type failObs struct {
+	Removed [][]uint64 `json:"removed"`
+	Notes   [][]uint64 `json:"notes"`
+	Cur     uint64     `json:"current_checkpoint"`
+	Some    bool       `json:"some"`
+	Errors  int        `json:"errors_reported"`
 }
 
 type pubObs struct {
@@ -208,6 +220,25 @@ func (w *world) afterAck(before int) (string, *pubObs, error) {
 	written, removed, sp := w.g.written, w.g.removed, w.g.spCopies
 	w.g.written, w.g.removed, w.g.spCopies = nil, nil, nil
 	w.g.mu.Unlock()
+	nerr := 0
+	for drained := false; !drained; {
+		select {
+		case <-w.errs:
+			nerr++
+		default:
+			drained = true
+		}
+	}
+	w.g.mu.Lock()
+	failed := w.g.failedWrites
+	w.g.failedWrites = nil
+	w.g.mu.Unlock()
+	if len(written) == 0 && len(failed) == 1 {
+		// the write of the snapshot file failed: what the store did nevertheless
+		cur := w.store.CurrentCheckpoint()
+		w.failObs = &failObs{Removed: removed, Notes: notes, Cur: cur.GetId(), Some: cur != nil, Errors: nerr}
+		return "", nil, nil
+	}
 	if len(written) != 1 {
 		return "", nil, fmt.Errorf("publication wrote %d snapshot files", len(written))
 	}
@@ -283,6 +314,13 @@ func execC12(c *hx.Case) (*hx.Result, error) {
 			if err != nil || o.D != 0 {
 				nbad++
 			}
+			if fo := w.failObs; fo != nil {
+				w.failObs = nil
+				tags["snapshot_write_failed"] = true
+				terms = append(terms, fmt.Sprintf("XAckOpF %s %s %s %s %s %s %s", hx.CoqN(cid), hx.CoqN(o.Op), hx.CoqN(o.Pl), hx.CoqBool(err != nil), nlistlist(fo.Removed), nlistlist(fo.Notes), optN(fo.Some, fo.Cur)))
+				observed = append(observed, map[string]any{"ack_op": o.Op, "cid": cid, "err": err != nil, "write_failed": fo})
+				break
+			}
 			terms = append(terms, fmt.Sprintf("XAckOp %s %s %s %s %s", hx.CoqN(cid), hx.CoqN(o.Op), hx.CoqN(o.Pl), hx.CoqBool(err != nil), pt))
 			observed = append(observed, map[string]any{"ack_op": o.Op, "cid": cid, "err": err != nil, "published": po})
 		case "as":
@@ -306,6 +344,13 @@ func execC12(c *hx.Case) (*hx.Result, error) {
 			if err != nil || o.D != 0 {
 				nbad++
 			}
+			if fo := w.failObs; fo != nil {
+				w.failObs = nil
+				tags["snapshot_write_failed"] = true
+				terms = append(terms, fmt.Sprintf("XAckSrF %s %s %s %s %s %s %s", hx.CoqN(cid), hx.CoqN(o.Op), nlist(o.St), hx.CoqBool(err != nil), nlistlist(fo.Removed), nlistlist(fo.Notes), optN(fo.Some, fo.Cur)))
+				observed = append(observed, map[string]any{"ack_sr": o.Op, "cid": cid, "err": err != nil, "write_failed": fo})
+				break
+			}
 			terms = append(terms, fmt.Sprintf("XAckSr %s %s %s %s %s", hx.CoqN(cid), hx.CoqN(o.Op), nlist(o.St), hx.CoqBool(err != nil), pt))
 			observed = append(observed, map[string]any{"ack_sr": o.Op, "cid": cid, "err": err != nil, "published": po})
 		case "lr":
@@ -314,6 +359,12 @@ func execC12(c *hx.Case) (*hx.Result, error) {
 			w.g.mu.Unlock()
 			terms = append(terms, "XLoseRemoves "+hx.CoqBool(o.B))
 			observed = append(observed, map[string]any{"lose_removes": o.B})
+		case "fw":
+			w.g.mu.Lock()
+			w.g.failNext = true
+			w.g.mu.Unlock()
+			terms = append(terms, "XFailNextWrite")
+			observed = append(observed, "fail_next_write")
 		case "ab":
 			w.store.AbortPendingCheckpoint()
 			terms = append(terms, "XAbort")
@@ -387,7 +438,7 @@ func execC12(c *hx.Case) (*hx.Result, error) {
 // ---------- mode c13 ----------
 
 type op13 struct {
-	K   string   `json:"k"`             // seg | load | base | pub | w | r | t | crash | rw
+	K   string   `json:"k"`             // seg | load | base | pub | w | wf | r | t | crash | rw
 	N   int      `json:"n,omitempty"`   // pub: number of split states (content size of the snapshot file)
 	Sp  bool     `json:"sp,omitempty"`  // pub: a savepoint (artifact written after publication)
 	ID  uint64   `json:"id,omitempty"`  // seg: the id; base: the seeded checkpoint id
@@ -555,7 +606,7 @@ func execC13(c *hx.Case) (*hx.Result, error) {
 	}
 	var terms []string
 	var observed []any
-	npub, ncrash, nsp, nrw, rewrites := 0, 0, 0, 0, 0
+	npub, ncrash, nsp, nrw, rewrites, nfail := 0, 0, 0, 0, 0, 0
 	outOfOrder, crashMulti, loadErr, curBack := false, false, false, false
 	var lastCur uint64
 	var sps []uint64 // ids with a savepoint artifact in storage
@@ -616,7 +667,7 @@ func execC13(c *hx.Case) (*hx.Result, error) {
 					rewrites++
 				}
 				written[id] = true
-				w.g.releaseCall(cl, true)
+				w.g.releaseCall(cl, relPerform)
 				quiesce()
 				// what the file holds now, read back from the real directory
 				tag = fileTag(filepath.Join(tmp, cl.paths[0]), id)
@@ -631,6 +682,23 @@ func execC13(c *hx.Case) (*hx.Result, error) {
 			lastCur = curID
 			terms = append(terms, fmt.Sprintf("YW %d %s %s %s", o.I, optN(ok, id), hx.CoqN(tag), hx.CoqN(curID)))
 			observed = append(observed, map[string]any{"write": id, "some": ok, "file_split_states": tag, "current_checkpoint": curID})
+		case "wf":
+			ws := w.g.parked(true)
+			ok := len(ws) > 0
+			var id uint64
+			if ok {
+				cl := ws[o.I%len(ws)]
+				id = cl.ids[0]
+				w.g.releaseCall(cl, relFail)
+				quiesce()
+				nfail++
+			}
+			curID := w.store.CurrentCheckpoint().GetId()
+			if ok {
+				lastCur = curID
+			}
+			terms = append(terms, fmt.Sprintf("YWF %d %s %s", o.I, optN(ok, id), hx.CoqN(curID)))
+			observed = append(observed, map[string]any{"write_failed": id, "some": ok, "current_checkpoint": curID})
 		case "r":
 			rs := w.g.parked(false)
 			ok := len(rs) > 0
@@ -638,7 +706,7 @@ func execC13(c *hx.Case) (*hx.Result, error) {
 			if ok {
 				cl := rs[o.I%len(rs)]
 				ids = cl.ids
-				w.g.releaseCall(cl, true)
+				w.g.releaseCall(cl, relPerform)
 				quiesce()
 			}
 			terms = append(terms, fmt.Sprintf("YR %d %s", o.I, optNlist(ok, ids)))
@@ -742,6 +810,9 @@ func execC13(c *hx.Case) (*hx.Result, error) {
 	}
 	if curBack {
 		tags = append(tags, "current_checkpoint_went_back")
+	}
+	if nfail > 0 {
+		tags = append(tags, "snapshot_write_failed")
 	}
 	if len(observed) > 16 {
 		observed = append(observed[:16:16], "...")
